@@ -376,3 +376,463 @@ def _check_wrapper(facts, res, w, inner):
                         res.fail(hkey, facts.where(h, arm["body"]), "has_post_incdec does not look into operand `%s` of Expr::%s" % (nm, v))
     if variants - covered:
         res.fail("T-SEQ-POINT:has_post_incdec:coverage", facts.where(h), "has_post_incdec does not name Expr variants %s" % sorted(variants - covered))
+
+
+# ----------------------------------------------------------------------------- C03 / C14 (label identity)
+
+
+def _mentions(e, name):
+    return any(x.get("k") == "path" and x["segs"] == [name] for x in walk(e))
+
+
+@rule("T-LABEL-IDENTITY", floor=3,
+      text="wherever the assembler layer relates the name of a label line (a binding of the payload of AsmLine::Label) to the operand of an instruction "
+           "(`dasm_operand`) - to find the target of a branch, or a jump to the next line - the two are compared for equality of the whole name (`==` / `!=`, "
+           "directly or through a helper whose body is that comparison).  Local labels differ by numeric suffix and by the `inlineN` suffix only "
+           "(.for1 / .for10 / .for1inline2), so a prefix, suffix or substring test takes the wrong line for the target: a branch is measured against "
+           "another label (out of range or needlessly long), or a needed jump is deleted")
+def t_label_identity(facts, res, tier):
+    from scopes import scoped
+    n = 0
+    for fn in facts.fns:
+        if not fn["file"].endswith("assemble.rs"):
+            continue
+        for node, env, doms in scoped(fn):
+            k = node.get("k")
+            if k not in ("binary", "mcall", "call", "macro"):
+                continue
+            labels = [b.name for b in env.values() if b.ctor and b.ctor[-1] == "Label" and b.src == "pat"]
+            if not labels:
+                continue
+            if k == "binary":
+                sides = [node["l"], node["r"]]
+            elif k == "mcall":
+                sides = [node["recv"]] + list(node.get("args", []))
+            elif k == "call":
+                sides = list(node.get("args", []))
+            else:
+                continue
+            lab = [s for s in sides if any(_mentions(s, l) for l in labels)]
+            opd = [s for s in sides if "dasm_operand" in expr_text(s)]
+            if not any(a is not b for a in lab for b in opd):
+                continue
+            if k == "binary" and node["op"] in ("&&", "||"):
+                continue
+            n += 1
+            how = node["op"] if k == "binary" else (node["method"] if k == "mcall" else expr_text(node["func"]))
+            key = "T-LABEL-IDENTITY:%s:%s" % (fn["name"], how)
+            res.inst(key, True, {"function": fn["name"], "relation": expr_text(node)[:80]})
+            ok = k == "binary" and node["op"] in ("==", "!=")
+            if k == "mcall" and node["method"] in ("eq", "ne"):
+                ok = True
+            if k == "call":
+                callee = [f for f in facts.fns if f["name"] == how.split("::")[-1]]
+                if len(callee) == 1:
+                    body = callee[0]["body"]
+                    stmts = body.get("stmts") or []
+                    if len(stmts) == 1:
+                        e = stmts[0]
+                        while e.get("k") == "paren":
+                            e = e["e"]
+                        ps = [p.get("name") for p in callee[0]["params"]]
+                        if e.get("k") == "binary" and e["op"] in ("==", "!=") and len(ps) == 2 and all(_mentions(e, p) for p in ps):
+                            ok = True
+            if not ok:
+                res.fail(key, facts.where(fn, node), "%s relates a label line to a branch operand with `%s`, which is not equality of the whole name: .for1 then also matches .for10 and .for1inline2" % (fn["name"], expr_text(node)[:80]))
+    res.note("%d label/operand relations" % n)
+
+
+# ----------------------------------------------------------------------------- C06 (the include stack)
+
+
+@rule("T-INCLUDE-STACK", floor=6,
+      text="`includes_stack` is the chain of (file, line) of the #include directives being processed, innermost last.  It is changed only by a push "
+           "immediately before the recursive call of process() and the pop immediately after it (same block), and everything that derives an "
+           "`included_in` from it reads its top (`last()`): a reader of another element (first, get(i), an iterator) reports the outermost includer, "
+           "or a stale one, as the place a nested header was included from.  The only other accesses allowed are len() / is_empty()")
+def t_include_stack(facts, res, tier):
+    n_read = n_pair = 0
+    for fn in facts.fns:
+        if not fn["file"].endswith("cpp.rs") or fn.get("test"):
+            continue
+        par = None
+        for x in walk(fn["body"]):
+            if x.get("k") == "index" and "includes_stack" in expr_text(x.get("e") or x.get("base") or {}):
+                res.fail("T-INCLUDE-STACK:%s:index" % fn["name"], facts.where(fn, x), "%s indexes includes_stack" % fn["name"])
+            if x.get("k") != "mcall":
+                continue
+            r = x["recv"]
+            while r.get("k") in ("ref", "paren"):
+                r = r["e"]
+            if not (r.get("k") == "field" and r["name"] == "includes_stack"):
+                continue
+            m = x["method"]
+            key = "T-INCLUDE-STACK:%s:%s" % (fn["name"], m)
+            if m in ("len", "is_empty"):
+                res.inst(key, True, {"function": fn["name"], "access": m})
+                continue
+            if m == "last":
+                n_read += 1
+                res.inst(key, True, {"function": fn["name"], "access": "top of the stack"})
+                continue
+            if m in ("push", "pop"):
+                if par is None:
+                    par = _parents(fn["body"])
+                # the statement and its block
+                top = x
+                p, k, idx = par[id(top)]
+                while p is not None and p.get("k") != "block":
+                    top = p
+                    p, k, idx = par[id(top)]
+                res.inst(key, True, {"function": fn["name"], "access": m})
+                if p is None:
+                    res.fail(key, facts.where(fn, x), "%s: %s of includes_stack outside a block" % (fn["name"], m))
+                    continue
+                stmts = p["stmts"]
+                if m == "push":
+                    n_pair += 1
+                    nxt = stmts[idx + 1] if idx + 1 < len(stmts) else None
+                    aft = stmts[idx + 2] if idx + 2 < len(stmts) else None
+                    rec_call = nxt is not None and any(c.get("k") == "call" and expr_text(c["func"]).split("::")[-1] == fn["name"] for c in walk(nxt))
+                    popped = aft is not None and any(c.get("k") == "mcall" and c["method"] == "pop" and "includes_stack" in expr_text(c["recv"]) for c in walk(aft)) and aft.get("k") in ("mcall", "try")
+                    if not (rec_call and popped):
+                        res.fail(key, facts.where(fn, x), "%s pushes on includes_stack without the shape push / recursive call / pop in one block: the stack no longer mirrors the files being read" % fn["name"])
+                    a = x["args"][0] if x.get("args") else {}
+                    at = expr_text(a).replace(" ", "")
+                    if not re.match(r"^\(filename(\.clone\(\))?,line\)$", at):
+                        res.fail(key + ":entry", facts.where(fn, x), "%s pushes `%s`: the entry must be the file being read and the line of its #include directive" % (fn["name"], at))
+                else:
+                    prev = stmts[idx - 1] if idx >= 1 else None
+                    prev2 = stmts[idx - 2] if idx >= 2 else None
+                    ok = prev is not None and prev2 is not None and any(c.get("k") == "mcall" and c["method"] == "push" and "includes_stack" in expr_text(c["recv"]) for c in walk(prev2))
+                    if not ok:
+                        res.fail(key, facts.where(fn, x), "%s pops includes_stack without the matching push two statements before" % fn["name"])
+                continue
+            res.inst(key, True, {"function": fn["name"], "access": m})
+            res.fail(key, facts.where(fn, x), "%s reads includes_stack through `%s`: `included_in` must be the innermost includer (last())" % (fn["name"], m))
+    if n_read < 4 or n_pair < 1:
+        raise AnchorMissing("includes_stack: %d top-of-stack readers, %d push sites (4 and 1 confirmed by hand)" % (n_read, n_pair))
+
+
+# ----------------------------------------------------------------------------- C10 (a literal keeps its value or is rejected)
+
+_W = {"u8": (8, 0), "i8": (8, 1), "u16": (16, 0), "i16": (16, 1), "u32": (32, 0), "i32": (32, 1), "u64": (64, 0), "i64": (64, 1),
+      "usize": (64, 0), "isize": (64, 1), "u128": (128, 0), "i128": (128, 1)}
+
+
+def _lossless(src, dst):
+    if src not in _W or dst not in _W:
+        return dst in ("f64",) or src == dst
+    (ws, ss), (wd, sd) = _W[src], _W[dst]
+    if ss == sd:
+        return wd >= ws
+    return ss == 0 and sd == 1 and wd > ws
+
+
+def _conv_type(n):
+    if n.get("k") == "mcall" and n["method"] == "parse" and n.get("turbofish"):
+        return re.sub(r"[:<>\s]", "", n["turbofish"])
+    if n.get("k") == "call" and expr_text(n["func"]).endswith("from_str_radix"):
+        return expr_text(n["func"]).split("::")[0].strip()
+    return None
+
+
+@rule("T-PARSE-WIDTH", floor=10,
+      text="the integer read from source text (`.parse::<T>()`, `T::from_str_radix`) keeps its value: it is not re-typed with an `as` cast that can "
+           "change it (narrower, or of the other signedness without an extra bit) - neither inside the closure chain that consumes the conversion "
+           "(`.ok().map(|v| v as i32)`) nor through a local bound to it.  A literal beyond the range of the target is then rejected by the conversion "
+           "itself instead of wrapping (0xFFFFFFFF read as -1, then sign-extended by every later 16-bit use)")
+def t_parse_width(facts, res, tier):
+    from scopes import scoped
+    n = 0
+    for fn in facts.fns:
+        if fn.get("test") or "/tests/" in fn["file"]:
+            continue
+        convs = [(x, _conv_type(x)) for x in walk(fn["body"]) if _conv_type(x)]
+        if not convs:
+            continue
+        parent = {}
+        for x in walk(fn["body"]):
+            if x.get("k") == "mcall":
+                parent[id(x["recv"])] = x
+            elif x.get("k") == "try":
+                parent[id(x["e"])] = x
+        sc = None
+        for ci, (c, ty) in enumerate(convs):
+            n += 1
+            key = "T-PARSE-WIDTH:%s:%s#%d" % (fn["name"], ty, ci + 1)
+            casts = []
+            # (a) closures of the chain
+            cur = c
+            chain_top = c
+            while id(cur) in parent:
+                cur = parent[id(cur)]
+                chain_top = cur
+                if cur.get("k") == "mcall" and cur["method"] in ("map", "and_then", "map_or", "map_or_else", "then", "filter_map") :
+                    for a in cur.get("args", []):
+                        if a.get("k") == "closure" and a.get("params"):
+                            pn = [p.get("name") or (p.get("pat") or {}).get("name") for p in a["params"]]
+                            for y in walk(a["body"]):
+                                if y.get("k") == "cast" and any(_mentions(y["e"], q) for q in pn if q):
+                                    casts.append(y)
+            # (b) a local bound to the chain
+            if sc is None:
+                sc = scoped(fn)
+            for node, env, doms in sc:
+                if node.get("k") != "cast":
+                    continue
+                for b in env.values():
+                    if b.src == "let" and b.init is not None and any(z is c for z in walk(b.init)) and _mentions(node["e"], b.name) and b.pat is not None and b.pat.get("k") == "ident":
+                        if node not in casts:
+                            casts.append(node)
+            bad = [y for y in casts if not _lossless(ty, y["ty"].replace(" ", ""))]
+            res.inst(key, True, {"function": fn["name"], "parsed_as": ty, "casts_of_the_value": [expr_text(y)[:40] for y in casts]})
+            for y in bad:
+                res.fail(key, facts.where(fn, y), "%s parses the text as %s and re-types the value with `%s`: a literal outside the range of %s is not rejected, it wraps" % (
+                    fn["name"], ty, expr_text(y)[:40], y["ty"]))
+    res.note("%d conversions" % n)
+
+
+# ----------------------------------------------------------------------------- C15 (whose carry is it)
+
+
+KEEPS_CARRY_MEANING = {"STA", "STX", "STY", "TAX", "TAY", "TXA", "TYA", "CMP", "CPX", "CPY"}
+
+CARRY_REPOINT_EXCEPTIONS = {
+    "generate_assign:A": "an accumulator *destination* is passed by generate_return (an RTS or the jump to the end of the inlined body follows) and by "
+                         "generate_ternary (each alternative is followed by a label, which clears carry_flag_ok) only",
+    "generate_deref:Y": "Y is loaded as the index of the access being built, the operand returned is AbsoluteY(pointer): the instruction that uses it "
+                        "(generate_assign / generate_arithm / the compare of generate_condition_ex) re-points the flags and decides carry_flag_ok "
+                        "before anything can consult them, and flags_ok() never holds between the state Y and an AbsoluteY operand",
+    "generate_expr:Y": "same as generate_deref:Y (the subscript is loaded into Y for an AbsoluteY operand); the saved Y is restored by "
+                       "purge_deferred_plusplus_and_savey, which clears carry_flag_ok",
+}
+
+
+@rule("T-CARRY-REPOINT", floor=15,
+      text="`carry_flag_ok` says that C belongs to the value `self.flags` describes (it lets an ordering test against 0 branch on C).  A path that "
+           "re-points `flags` to another value (assigns it a state other than Unknown) therefore also decides `carry_flag_ok` - it assigns it, or "
+           "passes through label(), which clears it - instead of inheriting what an earlier subtraction left: INC x / DEC x do not change C, but after "
+           "them C is not a property of x.  Decided: every normal path of every generator function that claims the flags also touches "
+           "carry_flag_ok; not decided: that the value assigned is right")
+def t_carry_repoint(facts, res, tier):
+    from walker import EnumV
+    per = {}
+    mn_universe = facts.enum_variants("AsmMnemonic")
+    for fn in genmodel.gen_fns(facts):
+        if fn["name"] in ("new", "label"):
+            continue
+        if not any(x.get("k") == "assign" and expr_text(x["l"]).replace(" ", "") == "self.flags" for x in walk(fn["body"])):
+            continue
+        try:
+            paths = genmodel.fn_paths(facts, fn)
+        except Exception as e:  # the walker cannot enumerate this function: fail closed
+            raise AnchorMissing("paths of %s: %s" % (fn["name"], e))
+        for kind, val, st in paths:
+            if genmodel.is_error_exit(val):
+                continue
+            claim = None
+            touched = False
+            last = None
+            for ev in st.events:
+                if ev["kind"] == "set" and ev["field"] == "flags":
+                    v = ev["value"]
+                    if isinstance(v, EnumV) and v.variant == "Unknown":
+                        continue
+                    # a store or a register transfer moves the value the flags already describe: its C moves with it;
+                    # a compare computes C from the value it describes
+                    if last is not None and last <= KEEPS_CARRY_MEANING:
+                        continue
+                    claim = ev
+                    claim_after = last
+                elif ev["kind"] == "set" and ev["field"] == "carry_flag_ok":
+                    touched = True
+                elif ev["kind"] == "label":
+                    touched = True
+                elif ev["kind"] in ("asm", "sasm", "sasm_protected") and ev.get("args"):
+                    m = genmodel.domain_of(st, ev["args"][0], facts, universe=mn_universe)
+                    last = set(m) if m else {"?"}
+            if claim is None:
+                continue
+            v = claim["value"]
+            what = v.variant if isinstance(v, EnumV) else "(computed)"
+            key = "T-CARRY-REPOINT:%s:%s" % (fn["name"], what)
+            d = per.setdefault(key, {"fn": fn, "ok": 0, "bad": None, "after": set()})
+            d["after"] |= claim_after or {"(nothing emitted)"}
+            if touched:
+                d["ok"] += 1
+            elif d["bad"] is None:
+                d["bad"] = claim
+    for key, d in sorted(per.items()):
+        res.inst(key, True, {"paths_deciding_carry": d["ok"], "violating": d["bad"] is not None, "claimed_after": sorted(d["after"])})
+        exc = CARRY_REPOINT_EXCEPTIONS.get(key.split(":", 1)[1])
+        if d["bad"] is not None and exc:
+            res.note("exception %s: %s" % (key, exc))
+            continue
+        if d["bad"] is not None:
+            res.fail(key, facts.where(d["fn"], d["bad"]["node"]), "a path through %s claims the flags for a new value and leaves carry_flag_ok as it found it: the C of an earlier subtraction is then taken for a property of that value, and `x > 0` right after branches on it" % d["fn"]["name"])
+
+
+# ----------------------------------------------------------------------------- C13 (a call has a target)
+
+
+@rule("T-CALL-TARGET", floor=4,
+      text="the body of an `inline` function is never emitted as a subroutine (the builders skip it), so its name is not a symbol of the output.  Every "
+           "instruction of generate_function_call whose operand is the label of the callee (JSR f, JSR Callf) lies where the callee's `inline` flag "
+           "has been tested and found false - the else side of a test that is exactly `f.inline`, f being the entry looked up for the called name - "
+           "and the inline expansion lies on its true side")
+def t_call_target(facts, res, tier):
+    from scopes import scoped, simple_name, strip
+    fn = facts.fn("generate_function_call", genmodel.GEN_QUAL)
+    n = 0
+    for node, env, doms in scoped(fn):
+        if not _self_call(node, ("asm", "push_code")):
+            continue
+        if node["method"] == "asm":
+            if len(node.get("args", [])) < 2:
+                continue
+            lab = None
+            for x in walk(node["args"][1]):
+                if x.get("k") == "call" and expr_text(x["func"]).replace(" ", "").endswith("ExprType::Label") and x.get("args"):
+                    lab = x["args"][0]
+            if lab is None:
+                continue
+            e = strip(lab)
+            names = [simple_name(e)] if simple_name(e) else [simple_name(a) for a in (e.get("args") or [])[1:]] if e.get("k") == "macro" else []
+            callee = [nm for nm in names if nm and env.get(nm) is not None and env[nm].ctor and env[nm].ctor[-1] == "Identifier"]
+            if not callee:
+                continue
+            want = False
+            what = "%s %s" % (expr_text(node["args"][0]), expr_text(lab)[:30])
+        else:
+            callee = [simple_name(node["args"][0])] if node.get("args") else []
+            want = True
+            what = "push_code"
+        n += 1
+        key = "T-CALL-TARGET:%s" % what.replace(" ", ":")
+        # the looked-up entries of the called name
+        entries = [b.name for b in env.values() if b.scrut is not None and re.search(r"\.functions\.get\(&?%s\)" % re.escape(callee[0]), expr_text(b.scrut).replace(" ", "")) and b.ctor and b.ctor[-1] == "Some"]
+        tested = None
+        for d in doms:
+            if d[0] == "cond":
+                t = expr_text(d[1]).replace(" ", "").strip("()")
+                for en in entries:
+                    if t == "%s.inline" % en:
+                        tested = d[2]
+        res.inst(key, True, {"emits": what, "callee_entry": entries, "inline_known": tested})
+        if tested is None or tested != want:
+            res.fail(key, facts.where(fn, node), "generate_function_call emits `%s` where the callee's `inline` flag is %s: %s" % (
+                what, "not known" if tested is None else "known to be %s" % str(tested).lower(),
+                "a JSR to an inline function has no target in the output" if not want else "an expansion of a function that is not inline"))
+    res.note("%d call emissions" % n)
+
+
+# ----------------------------------------------------------------------------- C17 / C01 (the flags of which byte)
+
+
+BYTE_SELECTING_CALLS = ("generate_assign", "generate_arithm")
+
+
+@rule("T-FLAGS-BYTE", configs=("default", "atari2600"), floor=8,
+      text="a state `FlagsState::Absolute/AbsoluteX/AbsoluteY(variable ..)` says that N and Z are those of the variable, so a truth test of it may branch "
+           "without reloading it.  On every path the claim is made after an access to the byte(s) the state names: the last instruction (asm(.., high_byte)) or "
+           "two-operand step (generate_assign / generate_arithm (.., high_byte)) before it was not made with high_byte = true - after the ADC #0 / STA of "
+           "the high byte of a 16-bit ++ the flags are those of the high byte alone, and `while (--s)` would stop when it reaches zero with the low byte "
+           "still counting.  The INC lo / BNE / INC hi shape claims the flags after a label, where both ways in agree with the claim; not decided: that shape itself")
+def t_flags_byte(facts, res, tier):
+    from walker import EnumV, Const
+    per = {}
+    for fn in genmodel.gen_fns(facts):
+        if fn["name"] in ("new", "label", "asm"):
+            continue
+        if not any(x.get("k") == "assign" and expr_text(x["l"]).replace(" ", "") == "self.flags" for x in walk(fn["body"])):
+            continue
+        paths = genmodel.fn_paths(facts, fn)
+        for kind, val, st in paths:
+            if genmodel.is_error_exit(val):
+                continue
+            last = None   # (what, high_byte domain)
+            for ev in st.events:
+                if ev["kind"] == "asm" and len(ev["args"]) >= 4:
+                    last = ("asm", genmodel.domain_of(st, ev["args"][3]) or {True, False}, ev)
+                elif ev["kind"] in ("sasm", "sasm_protected", "label", "push_code", "inline"):
+                    last = (ev["kind"], {False}, ev)
+                elif ev["kind"] == "call" and ev.get("callee") in BYTE_SELECTING_CALLS and ev["args"]:
+                    last = (ev["callee"], genmodel.domain_of(st, ev["args"][-1]) or {True, False}, ev)
+                elif ev["kind"] == "call" and str(ev.get("callee", "")).startswith("generate_"):
+                    last = (ev["callee"], {False}, ev)
+                elif ev["kind"] == "set" and ev["field"] == "flags":
+                    v = ev["value"]
+                    if not (isinstance(v, EnumV) and v.variant in ("Absolute", "AbsoluteX", "AbsoluteY")):
+                        continue
+                    key = "T-FLAGS-BYTE:%s:%s" % (fn["name"], v.variant)
+                    d = per.setdefault(key, {"fn": fn, "ok": 0, "bad": None, "after": set()})
+                    if last is None:
+                        d["ok"] += 1
+                        d["after"].add("(nothing emitted)")
+                        continue
+                    d["after"].add(last[0])
+                    if last[1] == {True}:
+                        if d["bad"] is None:
+                            d["bad"] = (ev, last)
+                    else:
+                        d["ok"] += 1
+    for key, d in sorted(per.items()):
+        res.inst(key, True, {"claims_after": sorted(d["after"]), "paths": d["ok"], "violating": d["bad"] is not None})
+        if d["bad"] is not None:
+            ev, last = d["bad"]
+            res.fail(key, facts.where(d["fn"], ev["node"]), "a path through %s claims the flags for a variable right after %s made with high_byte = true: N and Z are those of its high byte alone, and a truth test that follows does not reload the variable" % (d["fn"]["name"], last[0]))
+
+
+# ----------------------------------------------------------------------------- C16 (a mutex is not locked twice)
+
+
+def _lock_target(e):
+    """`<m>.lock().unwrap()` / `.expect(..)` / `?` -> text of <m>; None for anything else (in particular `*m.lock().unwrap()`, a copy)."""
+    while isinstance(e, dict) and (e.get("k") in ("try", "paren") or (e.get("k") == "mcall" and e["method"] in ("unwrap", "expect"))):
+        e = e["e"] if e.get("k") in ("try", "paren") else e["recv"]
+    if isinstance(e, dict) and e.get("k") == "mcall" and e["method"] == "lock" and not e.get("args"):
+        return expr_text(e["recv"]).replace(" ", "")
+    return None
+
+
+@rule("T-MUTEX-GUARD", floor=8,
+      text="std::sync::Mutex is not re-entrant: locking it while a guard of the same mutex is alive in the same thread blocks for ever (or panics).  "
+           "Every `lock()` in the crate is evaluated where no local that is still in scope was bound to a guard of the same mutex "
+           "(`let g = m.lock().unwrap();` - a temporary guard, as in `*m.lock().unwrap() += n` or `let v = *m.lock().unwrap();`, dies at the end of "
+           "its statement), unless that local was passed to drop() before; and no statement locks the same mutex twice in one expression")
+def t_mutex_guard(facts, res, tier):
+    from scopes import scoped
+    n = 0
+    for fn in facts.fns:
+        if fn.get("test") or not any(x.get("k") == "mcall" and x["method"] == "lock" and not x.get("args") for x in walk(fn["body"])):
+            continue
+        for node, env, doms in scoped(fn):
+            if not (node.get("k") == "mcall" and node["method"] == "lock" and not node.get("args")):
+                continue
+            m = expr_text(node["recv"]).replace(" ", "")
+            n += 1
+            key = "T-MUTEX-GUARD:%s:%s" % (fn["name"], m)
+            held = []
+            for b in env.values():
+                if b.src == "let" and b.init is not None and b.pat is not None and b.pat.get("k") == "ident" and _lock_target(b.init) == m:
+                    if any(x is node for x in walk(b.init)):
+                        continue
+                    dropped = any(d[0] == "stmt" and any(c.get("k") == "call" and expr_text(c["func"]).split("::")[-1] == "drop" and c.get("args") and expr_text(c["args"][0]).replace(" ", "") == b.name for c in walk(d[1])) for d in doms)
+                    if not dropped:
+                        held.append(b.name)
+            res.inst(key, True, {"function": fn["name"], "mutex": m, "guards_alive": held})
+            if held:
+                res.fail(key, facts.where(fn, node), "%s locks `%s` while the guard `%s` of the same mutex is still alive: the second lock never returns (std's Mutex is not re-entrant)" % (fn["name"], m, held[0]))
+        # twice in one statement
+        for s in walk(fn["body"]):
+            if s.get("k") == "block":
+                for st in s.get("stmts", []):
+                    if st.get("k") in ("block", "if", "match", "for", "while", "loop"):
+                        continue
+                    locks = [expr_text(x["recv"]).replace(" ", "") for x in walk(st) if x.get("k") == "mcall" and x["method"] == "lock" and not x.get("args")
+                             and not any(c.get("k") in ("closure", "block") and any(y is x for y in walk(c)) for c in walk(st) if c is not st)]
+                    for mm in set(locks):
+                        if locks.count(mm) > 1:
+                            res.fail("T-MUTEX-GUARD:%s:%s:statement" % (fn["name"], mm), facts.where(fn, st), "%s locks `%s` twice in one statement: the first temporary guard lives to the end of the statement" % (fn["name"], mm))
+    res.note("%d lock sites" % n)
